@@ -65,7 +65,18 @@ class HeapMixin:
         if isinstance(obj, SObj):
             cc0 = self.class_contract(obj)
             if cc0 is not None and attr in cc0.callbacks:
-                self.callback_present(obj, cc0.callbacks[attr], fr)
+                cb0 = cc0.callbacks[attr]
+                if cb0.present is not None and obj.fields.get(attr, UNSET) is None:
+                    # attribute initialised to None (WSStream.app_put) until the callable is set
+                    import ast as _ast
+
+                    from .contracts import Clause
+
+                    cl = Clause(f"{cb0.name}.present", cb0.present, (), _ast.parse(cb0.present, mode="eval").body)
+                    if not ctx.branch(self.as_z3_bool(self.spec_eval(cl, {"self": obj}, None)), f"has({cb0.name})@{fr.line}"):
+                        return None
+                    return BoundMethod(obj, attr)
+                self.callback_present(obj, cb0, fr)
                 return BoundMethod(obj, attr)
             if attr in obj.fields:
                 v = obj.fields[attr]
